@@ -875,6 +875,8 @@ make_fn!(
 );
 
 pub fn expression(input: SliceIter<Token>) -> ParseResult<Expression> {
+    #[cfg(ucg_verif)]
+    crate::verif::tick("parse::expression");
     let _input = input.clone();
     match trace_parse!(_input, op_expression) {
         Result::Incomplete(i) => Result::Incomplete(i),
